@@ -180,7 +180,7 @@ def case_strategy(max_len=30):
             if tgt['seq']:
                 tgt['static'] = [[[[draw(gt_names), 1]], [tgt['seq'][0]]]]
         # numerals whose float repr() uses 'e+' (1e16 and above) and the integer 0: C01 compares no masses, so they are harmless here
-        if gen.rare(draw, 12):
+        if gen.rare(draw, 12) and chains[0]['seq']:  # (a peptide without residues carries no modifications)
             tgt = chains[0]
             big = draw(st.sampled_from(['10000000000000000.0', '+12345678901234567.0', '-250000000000000000000.0', '0', '+0', '0.0',
                                         '100000000000000000000', '1234567890123456789012']))
